@@ -52,7 +52,7 @@ fn judge_request(case: &NetCase, obs: &Obs, id: usize) -> Option<(String, String
                 Some(("response-for-another-request".into(), format!("{desc} received the response produced for request {id_hdr:?}")))
             } else if origin_hdr != Some(redirect_target(case, spec).unwrap_or(srv)) {
                 Some(("response-from-wrong-origin".into(), format!("{desc} was answered by server {origin_hdr:?}")))
-            } else if status != (if is_upgrade(case, spec) { 101 } else { 200 + (id % 3) as u16 }) {
+            } else if status != (if is_upgrade(case, spec) { 101 } else if is_connect(case, spec) { 403 } else { 200 + (id % 3) as u16 }) {
                 Some(("response-status-altered".into(), format!("{desc} received status {status}")))
             } else if !body_ok {
                 Some(("response-body-altered".into(), format!("{desc} received a body of {body_len} bytes that differs from what the server produced")))
@@ -460,6 +460,9 @@ impl NetEngine {
         }
         if case.reqs.iter().any(|r| request_version(case, r) == http::Version::HTTP_11) {
             rep.class("h1-request");
+        }
+        if case.reqs.iter().enumerate().any(|(id, r)| is_connect(case, r) && matches!(obs.client.get(&id), Some((ClientOutcome::Ok { status: 403, .. }, _)))) {
+            rep.class("connect-request-answered");
         }
         if p == "C01" {
             rep.nontrivial = overlapping && (reused || cancelled);
